@@ -123,6 +123,24 @@ pub proof fn law_reflexive_instance(db: &DbIndex, t: LuaType, lvl: int)
     assert(head_ok(db, t, b, lvl + 1));
 }
 
+/// the simple variants (literal constants, table const, namespace, language) — decided by check_simple_type_compact's real text, at every
+/// depth and every check level
+pub open spec fn refl_simple(t: LuaType) -> bool {
+    t is BooleanConst || t is StringConst || t is IntegerConst || t is FloatConst || t is TableConst || t is DocStringConst
+        || t is DocIntegerConst || t is DocBooleanConst || t is Namespace || t is Language
+}
+pub proof fn law_reflexive_simple(db: &DbIndex, t: LuaType, lvl: int)
+    requires refl_simple(t), 0 <= lvl <= 100,
+    ensures head_ok(db, t, t, lvl) /*@C16.reflexive.simple-variants*/,
+{
+}
+/// FINDING (decided negatively): a string-template type is not accepted where itself is expected
+/// (check_simple_type_compact: `StrTplRef(_) => if compact_type.is_string() {..}`, and is_string() does not list StrTplRef)
+pub proof fn not_reflexive_for_str_tpl_ref(db: &DbIndex, t: LuaType, lvl: int)
+    requires t is StrTplRef, 0 <= lvl <= 100,
+    ensures head_err(db, t, t, lvl) /*@C16.reflexive.fails-for-strtplref*/,
+{
+}
 /// FINDING (decided negatively): the dispatch `match source` has no arm for SelfInfer / Conditional / Mapped; they fall to `_ => Err`
 pub proof fn not_reflexive_for_unlisted_sources(db: &DbIndex, t: LuaType, lvl: int)
     requires t is SelfInfer || t is Conditional || t is Mapped, 0 <= lvl <= 100,
@@ -131,24 +149,61 @@ pub proof fn not_reflexive_for_unlisted_sources(db: &DbIndex, t: LuaType, lvl: i
 }
 
 // ---- (c) union members -------------------------------------------------------------------------------------------------
-/// the FIRST member of a union is accepted where the union is expected, if it is a head-guard-reflexive type that is not replaced by
-/// escape_type (any depth below the limit)
+/// a member type that (1) is accepted where itself is expected one level deeper (laws (b): head-guard variants, simple variants, never, ...),
+/// (2) is not replaced by escape_type and (3) is neither a union nor an intersection
+pub open spec fn closable_member(db: &DbIndex, m: LuaType, lvl: int) -> bool {
+    head_ok(db, m, m, lvl + 1) && sp_escape(db, m) is None && !(m is Union) && !(m is Intersection)
+}
+/// the FIRST member of a union is accepted where the union is expected
 pub proof fn law_union_accepts_first_member(db: &DbIndex, s: LuaType, m: LuaType, lvl: int)
     requires
         s is Union, sp_into_vec(*s->Union_0).len() > 0, m == sp_into_vec(*s->Union_0)[0],
-        refl_by_head_guard(m), never_escapes(m) || sp_escape(db, m) is None, 0 <= lvl < 100,
+        closable_member(db, m, lvl), 0 <= lvl < 100,
     ensures head_ok(db, s, m, lvl) /*@C16.union-accepts-member.first*/,
 {
-    assert(head_ok(db, m, m, lvl + 1));
-    assert(!(m is Union) && !(m is Intersection));
     assert(cx_ok(db, s, m, lvl));
 }
-/// ANY member: the union check never answers "type mismatch" (Ok, or an error of an earlier member's branch checker leaks out)
+/// ANY member: the union check never answers "type mismatch" (it answers Ok, or an error that is NOT a mismatch — TypeRecursion /
+/// DonotCheck — leaked from the branch checker of an EARLIER member; whether that can happen is up to those checkers: not covered)
 pub proof fn law_union_never_mismatches_member(db: &DbIndex, s: LuaType, m: LuaType, k: int, lvl: int)
     requires
         s is Union, 0 <= k < sp_into_vec(*s->Union_0).len(), m == sp_into_vec(*s->Union_0)[k],
-        refl_by_head_guard(m), never_escapes(m) || sp_escape(db, m) is None, 0 <= lvl < 100,
+        closable_member(db, m, lvl), 0 <= lvl < 100,
     ensures reaches_source_arm(db, m) && some_member_ok(db, s, m, lvl) /*@C16.union-accepts-member.never-mismatch*/,
 {
     assert(head_ok(db, sp_into_vec(*s->Union_0)[k], m, lvl + 1));
+}
+/// the members a union type written `A | B | ...` can have for which (1)-(3) hold at every depth: the 13 head-guard unit variants, Ref to a
+/// non-alias class (escape None), the literal constants, table const, namespace, language, never
+pub proof fn closable_members(db: &DbIndex, m: LuaType, lvl: int)
+    requires 0 <= lvl < 100, (fast_unit(m) || refl_simple(m) || m is Never || (m is Ref && sp_escape(db, m) is None)),
+    ensures closable_member(db, m, lvl) /*@C16.union-accepts-member.closable-members*/,
+{
+}
+
+// ---- (d) ancestors -----------------------------------------------------------------------------------------------------
+/// a class is accepted where any of its ancestors is expected: `anc` declared as a class (its declaration exists, neither alias nor enum),
+/// `cls` not an alias (escape_type leaves Ref(cls) alone), and `anc` reachable from `cls` through the supers the type index reports
+/// (Ref supers and the base of Generic supers). Holds at every guard depth: no `next_level()?` lies on this path.
+pub proof fn law_class_accepted_where_ancestor_expected(db: &DbIndex, anc: LuaTypeDeclId, cls: LuaTypeDeclId, n: nat, lvl: int)
+    requires
+        is_class_decl(db, anc), sp_escape(db, LuaType::Ref(cls)) is None,
+        ancestor_within(sp_type_index(db), cls, anc, n), 0 <= lvl <= 100,
+    ensures head_ok(db, LuaType::Ref(anc), LuaType::Ref(cls), lvl) /*@C16.class-accepted-where-ancestor-expected*/,
+{
+    assert(descends(db, LuaType::Ref(cls), anc));
+}
+/// the same for a `Def` value (the type of the class table itself) — Def is never replaced by escape_type
+pub proof fn law_class_def_accepted_where_ancestor_expected(db: &DbIndex, anc: LuaTypeDeclId, cls: LuaTypeDeclId, n: nat, lvl: int)
+    requires is_class_decl(db, anc), ancestor_within(sp_type_index(db), cls, anc, n), 0 <= lvl <= 100,
+    ensures head_ok(db, LuaType::Ref(anc), LuaType::Def(cls), lvl) /*@C16.class-accepted-where-ancestor-expected.def*/,
+{
+    assert(descends(db, LuaType::Def(cls), anc));
+}
+/// reflexivity of a class type written as Def (the head guard only compares Ref with Ref)
+pub proof fn law_reflexive_def(db: &DbIndex, id: LuaTypeDeclId, lvl: int)
+    requires is_class_decl(db, id), 0 <= lvl <= 100,
+    ensures head_ok(db, LuaType::Def(id), LuaType::Def(id), lvl) /*@C16.reflexive.def-class*/,
+{
+    assert(descends(db, LuaType::Def(id), id));
 }
